@@ -295,18 +295,21 @@ fn retention(ctx: &Ctx, rep: &mut Report) {
     if ctx.thorough() {
         counts.extend([5000, 20000]);
     }
-    let n = counts.len() as u64 * 2;
+    // expiry durations: one hour, just above 2^32 ms (~49.7 days), ten years
+    let expiries: [u64; 3] = [3_600_000, (1u64 << 32) + 50, 315_360_000_000];
+    let n = counts.len() as u64 * 2 * expiries.len() as u64;
     ctx.family(
         rep,
         "retention-under-load",
-        "expiry one hour; a transfer on key K is started, then 1..2000 requests on other keys (1 ms apart, every one on a distinct key; thorough: up to 20000), then the follow-up on K: served from the cache / the upload completes with its buffered bytes",
+        "expiry {one hour, 2^32+50 ms, ten years}; a transfer on key K is started, 300 ms pass, then 1..2000 requests on other keys (1 ms apart, every one on a distinct key; thorough: up to 20000), then the follow-up on K: served from the cache / the upload completes with its buffered bytes",
         n,
         true,
         |i, rep| {
-            let c = counts[(i / 2) as usize];
+            let c = counts[((i / 2) % counts.len() as u64) as usize];
             let upload = i % 2 == 1;
+            let expiry = expiries[(i / 2 / counts.len() as u64) as usize];
             clock::reset();
-            let mut srv = Server::new(BUDGET, Duration::from_secs(3600));
+            let mut srv = Server::new(BUDGET, Duration::from_millis(expiry));
             let app = |call: &AppCall| -> AppReply {
                 if call.request.code == 1 {
                     AppReply { code: 0x45, options: vec![], payload: dbody(0) }
@@ -323,7 +326,7 @@ fn retention(ctx: &Ctx, rep: &mut Report) {
                 srv.exchange(1, &request_bytes(0, 1, 1, &[1], &["k"], &[], None, None, &[]), &app);
             }
             for j in 0..c {
-                clock::advance(1);
+                clock::advance(if j == 0 { 300 } else { 1 }); // 300 ms idle first (far below every expiry used)
                 let p = format!("o{}", j); // every intervening request on its own key
                 if j % 2 == 0 {
                     srv.exchange((j % 3) as u32 + 1, &request_bytes(0, 1, 100 + j as u16, &[2], &[&p], &[], None, None, &[]), &app);
@@ -343,14 +346,14 @@ fn retention(ctx: &Ctx, rep: &mut Report) {
             };
             if ok {
                 rep.count("state-survived-intervening-requests");
-                rep.bucket(&(c, upload));
+                rep.bucket(&(c, upload, expiry));
             } else {
                 rep.violation(viol(
                     "retention-under-load",
                     i,
                     "C20/state-lost-under-load",
                     format!("after {} requests on other keys inside the lifetime the {} on K did not continue from its cached state", c, if upload { "upload" } else { "download" }),
-                    Json::obj().set("intervening_requests", c).set("upload", upload),
+                    Json::obj().set("intervening_requests", c).set("upload", upload).set("expiry_ms", expiry),
                 ));
             }
             if ctx.want_sample(i, n) || i == 0 {
